@@ -106,7 +106,9 @@ def nodeStep (w : World) (side : Side) (ws : List String) : World × String :=
   | ["ports"] =>
     -- get_open_ports() as translated, and check_port_is_open for every (port, protocol) some software carries
     let open_ := (C13Wire.sortNat (openPortsV nn.n).eraseDups).map toString
-    let chk := (softwareValues nn.n).map fun s => s!"{s.port}/{C13Wire.showProto s.protocol}={showBool (portIsOpen nn.n s.port s.protocol)}"
+    let protos := ((softwareValues nn.n).map (·.protocol)).eraseDups
+    let chk := (softwareValues nn.n).flatMap fun s => protos.map fun pr =>
+      s!"{s.port}/{C13Wire.showProto pr}={showBool (portIsOpen nn.n s.port pr)}"
     (w, s!"OPEN[{",".intercalate open_}] CHECK[{",".intercalate (C13Wire.sortStr chk.eraseDups)}]")
   | ws =>
     -- a line of the one-node protocol
